@@ -101,6 +101,12 @@ class World(object):
         P.__symx_order__ = 3
         w.P = plugins.parser(S.rp, continue_on_error=coe)(P)
 
+        def P2(d):
+            w.calls.append("P2")
+            return d + 5
+        P2.__symx_order__ = 2
+        w.P2 = plugins.parser(w.impl)(P2)      # a parser built directly on the implementing datasource
+
         def Z():
             w.calls.append("Z")
             return vals["z"]
@@ -125,7 +131,7 @@ class World(object):
             return plugins.make_pass("KEY")
         R.__symx_order__ = 5
         w.R = plugins.rule([w.C, w.Z])(R)
-        w.names = {w.impl: "impl", w.rp: "rp", w.P: "P", w.C: "C", w.R: "R", w.Z: "Z"}
+        w.names = {w.impl: "impl", w.rp: "rp", w.P: "P", w.C: "C", w.R: "R", w.Z: "Z", w.P2: "P2"}
 
 
 HARD = ("content", "command", "timeout", "crash")
@@ -139,6 +145,7 @@ def reference(faults, vals, list_len, coe):
         v = [vals["e%d" % i] for i in range(list_len)] if list_len else vals["e0"]
         out["impl"] = v
         out["rp"] = v
+        out["P2"] = [x + 5 for x in v] if list_len else v + 5
         if list_len:
             res = []
             broken = False
@@ -167,7 +174,10 @@ def reference(faults, vals, list_len, coe):
     return out
 
 
-def run_world(faults, vals, list_len, coe, store_skips, observer, obs_target, lazy_fault=None):
+DRIVERS = ["run", "run_incremental", "run_all"]
+
+
+def run_world(faults, vals, list_len, coe, store_skips, observer, obs_target, lazy_fault=None, driver="run", rotate=0):
     chosen = {}
 
     def fault_of(n, i):
@@ -188,7 +198,14 @@ def run_world(faults, vals, list_len, coe, store_skips, observer, obs_target, la
         broker.add_observer(o)
     escaped = None
     try:
-        dr.run([w.R, w.Z, w.C, w.P, w.rp, w.impl], broker=broker)
+        comps = [w.R, w.Z, w.C, w.P, w.P2, w.rp, w.impl]
+        comps = comps[rotate:] + comps[:rotate]        # the order the targets are named in decides the key order of the graph
+        if driver == "run":
+            dr.run(comps, broker=broker)
+        elif driver == "run_incremental":
+            list(dr.run_incremental(comps, broker=broker))
+        else:
+            dr.run_all(comps, broker=broker)
     except Exception as ex:  # noqa
         escaped = ex
     return w, broker, escaped, chosen
@@ -231,7 +248,7 @@ def accounting(w, broker, escaped, store_skips):
 
 
 # ------------------------------------------------------------------ symbolic obligation
-def make_o1(max_list):
+def make_o1(max_list, full_cross=True):
     def o1(en):
         with REG:
             list_len = en.choice("list_len", max_list + 1)     # 0 = single output
@@ -242,15 +259,19 @@ def make_o1(max_list):
             vals = {"z": en.fresh_int("z")}
             for i in range(max(1, list_len)):
                 vals["e%d" % i] = en.fresh_int("e%d" % i)
+            driver = DRIVERS[en.choice("driver", len(DRIVERS))]
+            if not full_cross and driver != "run" and observer != "none":
+                raise core.Abort()       # quick tier: the other drivers are explored without a failing observer
+            rotate = en.choice("rotate", 7) if driver != "run" else 0
             w, broker, escaped, chosen = run_world(None, vals, list_len, coe, store_skips, observer, obs_target,
-                                                   lazy_fault=lambda n, i: FAULTS[en.choice("fault_%s_%s" % (n, i), len(FAULTS))])
+                                                   lazy_fault=lambda n, i: FAULTS[en.choice("fault_%s_%s" % (n, i), len(FAULTS))], driver=driver, rotate=rotate)
             case = lambda mv: {"faults": [[n, i, f] for (n, i), f in sorted(chosen.items(), key=repr)], "list_len": list_len,  # noqa
-                               "coe": coe, "store_skips": store_skips, "observer": observer, "obs_target": obs_target}
+                               "coe": coe, "store_skips": store_skips, "observer": observer, "obs_target": obs_target, "driver": driver, "rotate": rotate}
             en.note_sample(case)
             bad = accounting(w, broker, escaped, store_skips)
             en.must_hold(not bad, "accounted", case, detail=bad)
             ref = reference(chosen, vals, list_len, coe)
-            comps = {"impl": w.impl, "rp": w.rp, "P": w.P, "C": w.C, "R": w.R, "Z": w.Z}
+            comps = {"impl": w.impl, "rp": w.rp, "P": w.P, "C": w.C, "R": w.R, "Z": w.Z, "P2": w.P2}
             for name, comp in comps.items():
                 present = comp in broker
                 en.must_hold(present == (name in ref), "isolated", case,
@@ -274,13 +295,13 @@ def obligations(tier):
            plugins.datasource.invoke, plugins.parser.invoke, plugins.rule.process, dr.get_registry_points,
            RegistryPoint.__call__, dr.ComponentType.process]
     ml = 3 if thorough else 2
-    return [Obligation("O1-faults", make_o1(ml), ["accounted", "isolated"],
-                       desc="datasource -> registry point -> (multi-output) parser -> combiner -> rule, plus an unrelated leaf: every fault placement",
+    return [Obligation("O1-faults", make_o1(ml, thorough), ["accounted", "isolated"],
+                       desc="datasource -> registry point -> (multi-output) parser -> combiner -> rule, a second parser built directly on the implementing datasource, plus an unrelated leaf: every fault placement, under dr.run / run_incremental / run_all",
                        bounds={"faults per body/element": FAULTS, "parser elements": "single output or list of <= %d" % ml,
-                               "continue_on_error": "both", "store_skips": "both",
+                               "continue_on_error": "both", "store_skips": "both", "driver": DRIVERS if thorough else "dr.run with every observer; run_incremental / run_all without a failing observer",
                                "failing observer": "%s on any one component" % OBSERVERS, "values": "unconstrained symbolic ints"},
                        stubs=["timeouts are injected as the TimeoutException the SIGALRM handler would raise (no HostContext, no real alarm)"],
-                       outside=["real signal delivery", "BlacklistedSpec handling", "graphs other than the 6-component pipeline (C01/C04 vary the shape)"],
+                       outside=["real signal delivery", "BlacklistedSpec handling", "graphs other than the 7-component pipeline (C01/C04 vary the shape)"],
                        encoded=enc, budget_s=900 if thorough else 120, replay="faults", check_sample=True)]
 
 
@@ -288,10 +309,11 @@ def obligations(tier):
 def _native(case):
     faults = dict(((n, i), f) for n, i, f in case["faults"])
     vals = {"z": 7, "e0": 11, "e1": 13, "e2": 17}
-    w, broker, escaped, _ = run_world(faults, vals, case["list_len"], case["coe"], case["store_skips"], case["observer"], case["obs_target"])
+    w, broker, escaped, _ = run_world(faults, vals, case["list_len"], case["coe"], case["store_skips"], case["observer"], case["obs_target"],
+                                      driver=case.get("driver", "run"), rotate=case.get("rotate", 0))
     bad = accounting(w, broker, escaped, case["store_skips"])
     ref = reference(faults, vals, case["list_len"], case["coe"])
-    for name, comp in {"impl": w.impl, "rp": w.rp, "P": w.P, "C": w.C, "R": w.R, "Z": w.Z}.items():
+    for name, comp in {"impl": w.impl, "rp": w.rp, "P": w.P, "C": w.C, "R": w.R, "Z": w.Z, "P2": w.P2}.items():
         present = comp in broker
         if present != (name in ref):
             bad.append("%s %s a value but should%s" % (name, "has" if present else "lacks", "" if name in ref else " not"))
